@@ -862,6 +862,27 @@ func paramDeps(v ssa.Value, out map[*ssa.Parameter]bool, seen map[ssa.Value]bool
 		return
 	case *ssa.Const, *ssa.Global, *ssa.Function, *ssa.Builtin, *ssa.FreeVar:
 		return
+	case *ssa.Alloc:
+		// a local array/struct (the argument list of a variadic call): what was stored into it
+		if x.Referrers() != nil {
+			for _, ref := range *x.Referrers() {
+				switch y := ref.(type) {
+				case *ssa.Store:
+					if y.Addr == ssa.Value(x) {
+						paramDeps(y.Val, out, seen)
+					}
+				case *ssa.IndexAddr, *ssa.FieldAddr:
+					if rr := y.(ssa.Value).Referrers(); rr != nil {
+						for _, r2 := range *rr {
+							if st, ok := r2.(*ssa.Store); ok && st.Addr == y.(ssa.Value) {
+								paramDeps(st.Val, out, seen)
+							}
+						}
+					}
+				}
+			}
+		}
+		return
 	case *ssa.Phi:
 		for _, e := range x.Edges {
 			paramDeps(e, out, seen)
@@ -876,7 +897,8 @@ func paramDeps(v ssa.Value, out map[*ssa.Parameter]bool, seen map[ssa.Value]bool
 			if idom != nil && !idom.Dominates(b) {
 				continue
 			}
-			if b == blk || su.ReachableBlocks(b)[blk] {
+			// the branch at the end of the phi's own block comes after the phi (it matters only inside a loop)
+			if (b != blk && su.ReachableBlocks(b)[blk]) || (b == blk && inCycle(blk)) {
 				paramDeps(iff.Cond, out, seen)
 			}
 		}
@@ -1327,4 +1349,14 @@ func mergePairHelper(p *load.Prog, h, mn *ssa.Function) bool {
 		}
 	}
 	return okVal && okErr
+}
+
+// inCycle: the block can be reached again from one of its successors.
+func inCycle(b *ssa.BasicBlock) bool {
+	for _, s := range b.Succs {
+		if su.ReachableBlocks(s)[b] {
+			return true
+		}
+	}
+	return false
 }
